@@ -460,6 +460,26 @@ declarations:
 - decl: const std::string getName()
 - decl: enum Color { RED, BLUE }
 """,
+    # namespaces flattened into the library's Fortran module (block-name clause only)
+    "flat": """
+library: flt
+cxx_header: flt.hpp
+options:
+  F_flatten_namespace: true
+declarations:
+- decl: namespace ns1
+  declarations:
+  - decl: void g1(const std::string &s)
+  - decl: class C2
+    declarations:
+    - decl: void m1(const std::string &s)
+  - decl: namespace ns2
+    declarations:
+    - decl: void h1(const std::string &s)
+- decl: namespace ns3
+  declarations:
+  - decl: void k1(const std::string &s)
+""",
     "clib": """
 library: clib
 language: c
@@ -539,9 +559,37 @@ def name_shape_verdict(libname):
     with those names must find its blocks, so in every generated file each `namespace` / `class` keyword is followed by
     a declared name of that kind and a declared scope name does not occur without its keyword."""
     ns, cls = scope_components(libname)
+    # function name -> the namespaces it is declared in (outermost first), for names declared once
+    where = {}
+
+    def walk(decls, path):
+        for d in decls or []:
+            if not isinstance(d, dict):
+                continue
+            text = d.get("decl", "")
+            m = re.match(r"^\s*namespace\s+(\w+)", text)
+            if m:
+                walk(d.get("declarations"), path + [m.group(1)])
+                continue
+            if re.match(r"^\s*(?:template\s*<[^>]*>\s*)?(?:class|struct)\s+\w+", text):
+                walk(d.get("declarations"), path)
+                continue
+            m = re.search(r"(\w+)\s*\(", text)
+            if m:
+                where.setdefault(m.group(1), []).append(path)
+            walk(d.get("declarations"), path)
+    walk(pipeline.load_yaml(LIBS[libname]).get("declarations"), [])
     for fname, (g, blocks) in sorted(default_run(libname).items()):
         for name in sorted(blocks):
             parts = name.split(".")
+            if len(parts) >= 2 and parts[-2] in ("function", "method") and g != "lua":
+                # (the Lua module has one flat table per class and names no namespaces in its paths)
+                cands = [f for f in where if parts[-1] == f or parts[-1].startswith(f + "_")]
+                if len(cands) == 1 and len(where[cands[0]]) == 1:
+                    said = [q for k_ in range(len(parts) - 1) if parts[k_] == "namespace" for q in parts[k_ + 1].split("::")]
+                    if said != where[cands[0]][0]:
+                        return "%s: block %s lies in the namespaces %r, but %s is declared in %r" % (
+                            os.path.basename(fname), name, said, cands[0], where[cands[0]][0])
             i = 0
             while i + 1 < len(parts) and parts[i] in ("namespace", "class"):
                 pool = ns if parts[i] == "namespace" else cls
